@@ -22,7 +22,7 @@ import time
 
 from . import astlib
 from .astlib import ShapeError
-from .common import Check, sx, forbidden_scan, PY, VERIF, REPO
+from .common import Check, sx, forbidden_scan, PY, VERIF, REPO, COQ, DirLock, sh
 
 DEADLINE = float(os.environ.get("C14_DEADLINE", "5"))     # the only wall-clock quantity: a caller still blocked after this is a hang
 
@@ -55,7 +55,28 @@ def _is_copy_call(node):
             and len(node.args) == 1 and _mentions_pending(node.args[0]))
 
 
+_c13_ready = []
+
+
+def prepare_c13():
+    """coq/C14 imports C13.Model / C13.Proofs (the byte-level reader): build C13's .vo files (under C13's own lock) and make
+    the library visible to every coqc started from this process (COQPATH: /verif/coq/C13 is the logical name C13)."""
+    os.environ["COQPATH"] = COQ + (":" + os.environ["COQPATH"] if os.environ.get("COQPATH") and COQ not in os.environ["COQPATH"].split(":") else "")
+    if _c13_ready:
+        return
+    from . import c13
+    c = Check("C13", "quick")
+    c.generate(c13.generate())
+    c.build_model()
+    with DirLock(c.dir):        # only the .vo files are needed here; C13's own check runs its Properties.v
+        rc, out = sh(["timeout", "1800", "make", "-j4"] + [t for t in c._make_deps("Properties.vo")], cwd=c.dir, timeout=1900)
+    if rc != 0:
+        raise RuntimeError("coq/C13 (imported by coq/C14) does not build: %s" % out[-2000:])
+    _c13_ready.append(True)
+
+
 def generate():
+    prepare_c13()
     out = ["From Coq Require Import Bool."]
 
     def cleanup_flags():
@@ -161,6 +182,8 @@ CUT_CLASSES = ("between", "id", "len", "body")
 def model_steps(step):
     """harness step -> list of model steps (the first one decides whether the harness step is enabled)"""
     op = step[0]
+    if op == "connect":
+        return [["connect", 1 if step[1] == "ok" else 0], ["cleanall"]]
     if op == "invoke":
         return [["invoke", step[1]]]
     if op == "reg":
@@ -189,7 +212,32 @@ def model_request(script, steps=None):
     for st in (script["steps"] if steps is None else steps):
         ms += model_steps(st)
         ms.append(["collect"])
-    return sx(["play", [1 if c else 0 for c in script["calls"]], ms])
+    return sx(["play", c0_of(script), [1 if c else 0 for c in script["calls"]], ms])
+
+
+def c0_of(script):
+    """conn_provider.is_open() before connect() returns: ReaderWriterConnectionProvider 1, HostPortConnectionProvider 0"""
+    return 1 if script.get("provider", "rw") == "rw" else 0
+
+
+def wire_request(script, r):
+    """byte-level replay: the chunks the driver actually fed, decoded by C13's reader model inside the C14 model"""
+    table = [[list(bytes.fromhex(h)), ["resp", int(k), 1]] for k, h in r["ids"].items()]
+    table += [[list(bytes.fromhex(h)), ["push", 1 if ok else 0]] for h, ok in r["push_ids"]]
+    if r.get("closereq_id"):
+        table.append([list(bytes.fromhex(r["closereq_id"])), ["closereq"]])
+    items = []
+    for i, st in enumerate(script["steps"]):
+        if st[0] in ("resp", "push", "closereq", "cut"):
+            for kind, idx, data in r["wire"]:
+                if idx == i:
+                    items.append(["eof"] if kind == "eof" else ["chunk", list(bytes.fromhex(data))])
+            items.append(["cleanall"])
+        else:
+            for m in model_steps(st):
+                items.append(m if m == ["cleanall"] else ["l", m])
+        items.append(["collect"])
+    return sx(["wplay", c0_of(script), [1 if c else 0 for c in script["calls"]], table, items])
 
 
 def effective(script, taken):
@@ -201,7 +249,8 @@ def effective(script, taken):
         if taken[i]:
             out.append(st)
         i += n + 1      # + the collect marker
-    return {"calls": script["calls"], "steps": out, "tag": script.get("tag", "")}
+    return {"calls": script["calls"], "steps": out, "tag": script.get("tag", ""), "provider": script.get("provider", "rw"),
+            "callbacks": bool(script.get("callbacks"))}
 
 
 def finale(rng, n, answer=True, final_cut=True):
@@ -257,8 +306,27 @@ def gen_scripts(rng, tier):
     quick = tier == "quick"
     S = []
 
-    def add(tag, calls, steps):
-        S.append({"calls": list(calls), "steps": steps, "tag": tag})
+    def add(tag, calls, steps, provider=None, connected=True):
+        provider = provider or ("hp" if rng.random() < 0.3 else "rw")
+        S.append({"calls": list(calls), "steps": ([["connect", "ok"]] if connected else []) + steps, "tag": tag, "provider": provider,
+                  "callbacks": rng.random() < 0.25})
+
+    # H. calls racing run_client(): before connect() has returned, which then succeeds or raises KlongIPCCreateConnectionException
+    hv = []
+    for provider in ("rw", "hp"):
+        for n in (1, 2, 3):
+            for v in itertools.product(STAGES[:4], repeat=n):
+                if any(x != "idle" for x in v):
+                    for outcome in ("ok", "fail"):
+                        hv.append((provider, v, outcome))
+    if quick:
+        rng.shuffle(hv)
+        hv = hv[:70]
+    for provider, v, outcome in hv:
+        n = len(v)
+        pre = interleave(rng, [prefix_for(k, v[k]) for k in range(n)])
+        add("before-connect", [rng.random() < 0.15 for _ in range(n)], pre + [["connect", outcome]] + finale(rng, n, answer=True, final_cut=True),
+            provider=provider, connected=False)
 
     # A. all arrival orders of the responses to 1..3 concurrent calls, each with a fragmentation of every frame
     for n in (1, 2, 3):
@@ -448,6 +516,17 @@ def child_main():
                 raise ValueError("evaluation failed")
             return 42
 
+    CUR = [None]
+
+    async def open_connection(host, port, **kw):
+        env = CUR[0]
+        await env.gate_connect.wait()
+        if env.connect_fail:
+            raise OSError("connection refused")
+        return env.reader, env.wstub
+
+    asyncio.open_connection = open_connection
+
     class Play:
         def __init__(self, script):
             self.script = script
@@ -467,6 +546,11 @@ def child_main():
             self.release_io = threading.Event()
             self.threads = {}
             self.notes = []
+            self.protocol_broken = False
+            self.wire = []          # what was fed to the StreamReader: (kind, index of the script step, hex)
+            self.step_index = -1
+            self.push_ids = []
+            self.closereq_id = None
 
         def ev(self, e):
             with self.lock:
@@ -491,6 +575,7 @@ def child_main():
             with self.lock:
                 while not pred():
                     if time.time() - t0 > limit:
+                        self.protocol_broken = True      # the implementation left the path the harness can drive
                         return False
                     self.lock.wait(0.02)
             return True
@@ -534,9 +619,38 @@ def child_main():
             self.ioloop.create_future = create_future
             self.reader = asyncio.StreamReader(loop=self.ioloop)
             self.wstub = WriterStub(self)
-            self.provider = ipc.ReaderWriterConnectionProvider(self.reader, self.wstub, "mem", 0)
-            self.nc = ipc.NetworkClient(self.ioloop, self.kloop, KlongStub(), self.provider)
-            self.nc.run_client()
+            self.connect_fail = False
+            box = []
+            self.on_io(lambda: box.append(asyncio.Event()))
+            self.gate_connect = box[0]
+            CUR[0] = self
+            if self.script.get("provider", "rw") == "hp":
+                # the real HostPortConnectionProvider (retry loop included) over a patched asyncio.open_connection
+                self.provider = ipc.HostPortConnectionProvider("mem", 1, max_retries=2, retry_delay=0)
+            else:
+                class GatedRW(ipc.ReaderWriterConnectionProvider):
+                    async def connect(self2):
+                        await env.gate_connect.wait()
+                        return await ipc.ReaderWriterConnectionProvider.connect(self2)
+                self.provider = GatedRW(self.reader, self.wstub, "mem", 0)
+            cbs = {}
+            if self.script.get("callbacks"):
+                # application callbacks that fail (once the client is connected): _run must contain them
+                async def on_error(client, e):
+                    if env.connected_once:
+                        raise RuntimeError("on_error callback failed")
+
+                async def on_close(client):
+                    if env.connected_once:
+                        raise RuntimeError("on_close callback failed")
+                cbs = {"on_error": on_error, "on_close": on_close}
+            self.connected_once = False
+            self.nc = ipc.NetworkClient(self.ioloop, self.kloop, KlongStub(), self.provider, **cbs)
+            self.starter = threading.Thread(target=self.nc.run_client, daemon=True)
+            self.starter.start()
+            if not self.wait_for(lambda: self.nc.running):
+                self.notes.append("run_client did not start")
+            self.quiesce()
 
         def on_io(self, fn, *a):
             done = threading.Event()
@@ -583,7 +697,7 @@ def child_main():
             except BaseException as e:  # noqa
                 cls = type(e).__name__
                 word = {"KlongException": "notest", "AttributeError": "attr", "KlongIPCConnectionFailureException": "connfail",
-                        "KGRemoteCloseConnectionException": "closeconn"}.get(cls, "other")
+                        "KGRemoteCloseConnectionException": "closeconn", "KlongIPCCreateConnectionException": "createconn"}.get(cls, "other")
                 if word == "notest" and "connection not established" not in str(e):
                     word = "other"
                 if word == "other":
@@ -616,6 +730,7 @@ def child_main():
             for c in list(cuts) + [len(data)]:
                 c = min(c, len(data))
                 if c > pos:
+                    self.wire.append(("chunk", self.step_index, data[pos:c].hex()))
                     self.on_io(self.reader.feed_data, data[pos:c])
                     self.quiesce(2)
                     pos = c
@@ -625,7 +740,19 @@ def child_main():
 
         def step(self, st):
             op = st[0]
-            if op == "invoke":
+            self.step_index += 1
+            if op == "connect":
+                self.connect_fail = st[1] != "ok"
+                if self.connect_fail:
+                    self.wstub.closing = True     # ReaderWriterConnectionProvider.connect raises when the transport is closing
+                self.ev(("connected",) if st[1] == "ok" else ("loss",))
+                self.on_io(self.gate_connect.set)
+                self.starter.join(2 * DEADLINE)
+                if self.starter.is_alive():
+                    self.notes.append("run_client() did not return")
+                self.quiesce()
+                self.connected_once = st[1] == "ok"
+            elif op == "invoke":
                 k = st[1]
                 self.ev(("call", k))
                 t = threading.Thread(target=self.caller, args=(k,), daemon=True)
@@ -659,10 +786,13 @@ def child_main():
             elif op == "push":
                 if st[1] == "fail":
                     self.ev(("loss",))
-                self.feed(self.frame(uuid.UUID(int=1000 + len(self.events)).bytes, "fail" if st[1] == "fail" else "1+1"))
+                pid = uuid.UUID(int=1000 + len(self.events)).bytes
+                self.push_ids.append((pid.hex(), st[1] != "fail"))
+                self.feed(self.frame(pid, "fail" if st[1] == "fail" else "1+1"))
                 self.quiesce()
             elif op == "closereq":
                 self.ev(("loss",))
+                self.closereq_id = uuid.UUID(int=99).bytes.hex()
                 self.feed(self.frame(uuid.UUID(int=99).bytes, ipc.KGRemoteCloseConnection()))
                 self.quiesce()
             elif op in ("cut", "cutpause"):
@@ -672,8 +802,10 @@ def child_main():
                     mid = self.ids.get(st[2]) if len(st) > 2 and st[2] is not None else None
                     data = self.frame(mid or uuid.UUID(int=5).bytes, ("a", 123456789))[:part]
                     if data:
+                        self.wire.append(("chunk", self.step_index, data.hex()))
                         self.on_io(self.reader.feed_data, data)
                         self.quiesce(2)
+                    self.wire.append(("eof", self.step_index, ""))
                     self.on_io(self.reader.feed_eof)
                     self.quiesce()
                 else:
@@ -713,6 +845,9 @@ def child_main():
             try:
                 for st in self.script["steps"]:
                     self.step(st)
+                    if self.protocol_broken:
+                        self.notes.append("script abandoned after step %r" % (st,))
+                        break
                 self.pause_after = None
                 self.release_io.set()
                 # nobody stays parked at a harness gate (only happens when the implementation left the model's path)
@@ -739,7 +874,9 @@ def child_main():
                         "blocked": [k for k in sorted(self.threads) if k not in self.done],
                         "pending": pend, "exited": self.nc._run_exit_event.is_set(),
                         "writer_none": self.nc.writer is None, "running": bool(self.nc.running),
-                        "is_open": bool(self.nc.is_open()), "notes": self.notes}
+                        "is_open": bool(self.nc.is_open()), "notes": self.notes, "protocol_broken": self.protocol_broken,
+                        "wire": self.wire, "ids": {str(k): v.hex() for k, v in self.ids.items()},
+                        "push_ids": self.push_ids, "closereq_id": self.closereq_id}
             finally:
                 self.release_io.set()
                 for loop, th, st in ((self.ioloop, self.iothread, self.iostop), (self.kloop, self.kthread, self.kstop)):
@@ -907,7 +1044,7 @@ def child_main():
                 r = server_play(job["server"])
             else:
                 r = Play(job["script"]).run(set(job.get("expect_done", [])))
-            if r.get("hung"):
+            if r.get("hung") or r.get("protocol_broken"):
                 hangs += 1
         except Exception:
             import traceback
@@ -1019,7 +1156,7 @@ def evaluate(chk, scripts, label="scripts"):
     # de-duplicate
     seen, uniq = set(), []
     for s in eff:
-        key = json.dumps([s["calls"], s["steps"]])
+        key = json.dumps([s["calls"], s["steps"], s.get("provider"), s.get("callbacks")])
         if key not in seen:
             seen.add(key)
             uniq.append(s)
@@ -1030,8 +1167,11 @@ def evaluate(chk, scripts, label="scripts"):
     # the property's oracle: the verified checker on the OBSERVED history
     checks = chk.run_model([sx(["check", len(s["calls"]), r.get("events", [])]) if "events" in r else "(check 0 ())"
                             for s, r in zip(uniq, res)])
+    # byte-level model equality: the chunks actually fed, decoded inside the model by C13's reader
+    wire_idx = [i for i, (s, r) in enumerate(zip(uniq, res)) if "events" in r and not any(st[0] in ("cutpause", "resume") for st in s["steps"])]
+    wire_out = dict(zip(wire_idx, chk.run_model([wire_request(uniq[i], res[i]) for i in wire_idx])))
     prop_fail, corr_fail, infra = [], [], []
-    for s, mv, r, c in zip(uniq, mvs, res, checks):
+    for idx, (s, mv, r, c) in enumerate(zip(uniq, mvs, res, checks)):
         if r.get("skipped"):
             chk.count("skipped_after_two_hangs_in_worker")
             continue
@@ -1064,6 +1204,15 @@ def evaluate(chk, scripts, label="scripts"):
         if mv["pending"]:
             chk.count("scripts_ending_with_leaked_futures_model")
         why = compare(s, mv, r)
+        if why is None and idx in wire_out:
+            wo = wire_out[idx]
+            chk.count("byte_level_replays")
+            chk.count("bytes_fed", sum(len(x[2]) // 2 for x in r["wire"]))
+            if wo[0] != "ok":
+                why = "byte-level model rejected the wire log: %r" % (wo,)
+            elif [sx(e) for e in model_view(wo)["hist"]] != [sx(e) for e in r["events"]]:
+                why = "byte-level history differs: model(bytes) %s / implementation %s" % (
+                    " ".join(sx(e) for e in model_view(wo)["hist"]), " ".join(sx(e) for e in r["events"]))
         if why is None and r["notes"]:
             why = "driver notes: " + "; ".join(r["notes"])
         if why is not None:
